@@ -319,6 +319,13 @@ func (i *Index) coversOrdCols(ordExps []*OrdExp, rangesByColID map[uint32]*typed
 	if !ordExpsHaveSameDirection(ordExps) {
 		return false
 	}
+	// an index scan yields NULLs first when read forward and last when read backward:
+	// it can not serve an explicit NULLS FIRST/LAST that asks for the opposite placement
+	for _, e := range ordExps {
+		if (e.nullsOrder == NullsLast && !e.descOrder) || (e.nullsOrder == NullsFirst && e.descOrder) {
+			return false
+		}
+	}
 	return i.hasPrefix(i.cols, ordExps) || i.sortableUsing(ordExps, rangesByColID)
 }
 
